@@ -227,7 +227,6 @@ func init() {
 			bv := map[string]*querypb.BindVariable{}
 			sqlparser.Normalize(stmt, bv, "bv")
 			_ = sqlparser.StringWithDialect(d, stmt)
-			_ = sqlparser.SkipQueryPlanCacheDirective(stmt)
 			return nil
 		}
 	}
